@@ -1,6 +1,7 @@
 package main
 
 import (
+	"fmt"
 	"go/token"
 	"go/types"
 	"strings"
@@ -554,6 +555,61 @@ func checkC01(c *Ctx, r *Report) {
 		r7.Fail(quicP+": GetConfigForClient → ConfigForPeer", token.NoPos, "server-side config specialisation not found", "")
 	}
 
+	// ---- R10: QUIC hole punching: the key that pairs a dial with an inbound connection names the peer -------
+	r10 := r.Rule("C01-R10", "E6", 3, "QUIC hole punch: every access to transport.holePunching uses a key whose peer component is the dial's expected peer (dial side) or the authenticated remote peer (accept side)")
+	hpField := quicP + ".transport.holePunching"
+	nHP := 0
+	for _, f := range c.FnsOfPkg(quicP) {
+		root := c.Root(f)
+		var wantPeer func(v ssa.Value) bool
+		what := ""
+		switch fnKey(root) {
+		case "(*" + quicP + ".transport).holePunch":
+			wantPeer = func(v ssa.Value) bool { return isParamVar(c, v, "p") }
+			what = "the peer being dialed (parameter p)"
+		case "(*" + quicP + ".listener).Accept":
+			wantPeer = func(v ssa.Value) bool { return isLoadOfField(quicP + ".conn.remotePeerID")(strip(v)) }
+			what = "the accepted connection's authenticated remotePeerID"
+		}
+		allInstrs(f, func(in ssa.Instruction) {
+			var key ssa.Value
+			switch x := in.(type) {
+			case *ssa.Lookup:
+				if isLoadOfField(hpField)(strip2(x.X)) {
+					key = x.Index
+				}
+			case *ssa.MapUpdate:
+				if isLoadOfField(hpField)(strip2(x.Map)) {
+					key = x.Key
+				}
+			case *ssa.Call:
+				if calleeKey(x) == "builtin.delete" && len(x.Call.Args) == 2 && isLoadOfField(hpField)(strip2(x.Call.Args[0])) {
+					key = x.Call.Args[1]
+				}
+			}
+			if key == nil {
+				return
+			}
+			nHP++
+			k := fmt.Sprintf("%s: holePunching key names the peer", fnKey(f))
+			if wantPeer == nil {
+				r10.Fail(k, instrPos(in), "the hole-punch table is accessed outside transport.holePunch / listener.Accept", "")
+				return
+			}
+			vals, ok := structFieldValues(c, key, "peer", 3)
+			good := ok && len(vals) > 0
+			for _, v := range vals {
+				if !wantPeer(v) {
+					good = false
+				}
+			}
+			r10.Check(good, k, instrPos(in), 1, "", "the key does not bind the hole punch to "+what+": a connection from any peer arriving from the punched address is returned to the dialer as the expected peer", fmt.Sprintf("%d values for key.peer", len(vals)))
+		})
+	}
+	if nHP < 3 {
+		r10.Fail("accesses to transport.holePunching", token.NoPos, fmt.Sprintf("expected at least 3, found %d", nHP), "")
+	}
+
 	// ---- R9: the caller's expected peer reaches the security transport -------
 	r9 := r.Rule("C01-R9", "E6", 9, "expected-peer threading: every SecureInbound/SecureOutbound call (and the wrappers leading to it) passes the enclosing function's own peer.ID parameter; \"\" only at listener sites")
 	emptyOK := map[string]string{
@@ -706,4 +762,127 @@ func checkPeerIDForm(f *ssa.Function, v ssa.Value) string {
 		}
 	}
 	return ""
+}
+
+// structFieldValues: the values the named field of a struct value may hold,
+// following composite literals (stores into the fresh Alloc), loads of local
+// cells, phis, and static module callees that build the struct (their
+// parameters are replaced by the caller's arguments). ok=false when a
+// possible definition leaves the field unset (zero value) or cannot be
+// followed.
+func structFieldValues(c *Ctx, v ssa.Value, field string, depth int) ([]ssa.Value, bool) {
+	v = strip2(v)
+	switch x := v.(type) {
+	case *ssa.Phi:
+		var out []ssa.Value
+		for _, e := range x.Edges {
+			vs, ok := structFieldValues(c, e, field, depth)
+			if !ok {
+				return nil, false
+			}
+			out = append(out, vs...)
+		}
+		return out, true
+	case *ssa.UnOp:
+		if x.Op != token.MUL {
+			return nil, false
+		}
+		al, ok := x.X.(*ssa.Alloc)
+		if !ok {
+			// a captured variable: follow the binding in the enclosing function
+			if fv, isFV := x.X.(*ssa.FreeVar); isFV && c != nil {
+				fn := fv.Parent()
+				parent := c.Parent(fn)
+				if parent == nil {
+					return nil, false
+				}
+				idx := -1
+				for i, q := range fn.FreeVars {
+					if q == fv {
+						idx = i
+					}
+				}
+				var cell *ssa.Alloc
+				allInstrs(parent, func(in ssa.Instruction) {
+					if mc, isMC := in.(*ssa.MakeClosure); isMC && mc.Fn == ssa.Value(fn) && idx >= 0 {
+						if a, isA := mc.Bindings[idx].(*ssa.Alloc); isA {
+							cell = a
+						}
+					}
+				})
+				if cell == nil {
+					return nil, false
+				}
+				al, ok = cell, true
+			}
+		}
+		if !ok {
+			return nil, false
+		}
+		// whole-struct stores into the cell, or field stores
+		var out []ssa.Value
+		found := false
+		for _, ref := range *al.Referrers() {
+			switch r := ref.(type) {
+			case *ssa.Store:
+				if r.Addr == ssa.Value(al) {
+					vs, ok := structFieldValues(c, r.Val, field, depth)
+					if !ok {
+						return nil, false
+					}
+					out = append(out, vs...)
+					found = true
+				}
+			case *ssa.FieldAddr:
+				fl, _ := fieldAddrOf(r)
+				if fl == nil || fl.Name() != field {
+					continue
+				}
+				for _, r2 := range *r.Referrers() {
+					if st, ok := r2.(*ssa.Store); ok && st.Addr == ssa.Value(r) {
+						out = append(out, st.Val)
+						found = true
+					}
+				}
+			}
+		}
+		return out, found
+	case *ssa.Call:
+		callee := x.Call.StaticCallee()
+		if callee == nil || callee.Blocks == nil || depth <= 0 {
+			return nil, false
+		}
+		var out []ssa.Value
+		for _, ret := range returnsOf(callee) {
+			if len(ret.Results) != 1 {
+				return nil, false
+			}
+			vs, ok := structFieldValues(c, ret.Results[0], field, depth-1)
+			if !ok {
+				return nil, false
+			}
+			for _, fv := range vs {
+				// a callee parameter stands for the caller's argument
+				if p, isP := strip2(fv).(*ssa.Parameter); isP && p.Parent() == callee {
+					for i, q := range callee.Params {
+						if q == p && i < len(x.Call.Args) {
+							fv = x.Call.Args[i]
+						}
+					}
+				} else if ld, isLd := strip2(fv).(*ssa.UnOp); isLd {
+					// spilled parameter
+					if al, isAl := ld.X.(*ssa.Alloc); isAl {
+						for i, q := range callee.Params {
+							if isParamCell(c, al, q.Name()) && i < len(x.Call.Args) {
+								fv = x.Call.Args[i]
+							}
+						}
+					}
+				}
+				out = append(out, fv)
+			}
+		}
+		return out, len(out) > 0
+	}
+	return nil, false
 }
